@@ -33,3 +33,6 @@ Definition ser_res (r : res donto) : list (list N) :=
   end.
 
 Definition res_donto_eqb (a b : res donto) : bool := matrix_eqb (ser_res a) (ser_res b).
+
+Definition final_dump_of (o : wobs) : res donto :=
+  match o with Ok (_, r) => r | Err e => Err e | Panic => Panic | Fuel => Fuel end.
